@@ -103,6 +103,8 @@ Definition is_deleted (i : info) : bool := gid i =? DELETED_GLYPH.
 Record shaped := mkShaped { sh_glyphs : list (N * N); sh_amb : N; sh_events : list event }.
 
 Definition shape_morx (f : font) (d : dir) (lvl : N) (text : list (N * N)) : result shaped :=
+  (* shape.rs: `if buffer.len > 0 { shape_internal }` — an empty buffer is returned as it is *)
+  if (length text =? 0)%nat then Ok (mkShaped [] 0 []) else
   let b0 := init_buf (text_infos f text) lvl 0 in
   (* ensure_native_direction: script None => no horizontal flip; BTT => reverse graphemes
      (single-character groups for PUA text), direction := TTB *)
